@@ -533,6 +533,19 @@ def r11_10(ctx) -> None:
     """dump_pem_key: encoding None / "PEM" -> Encoding.PEM, "DER" -> Encoding.DER, anything else refused (a finite dispatch)"""
     eng = ctx.eng
     fn = eng.prog.func("rfc7517.pem:dump_pem_key")
+    from .common import dump_pem_verdicts
+    folded = dump_pem_verdicts(eng)
+    if folded is not None:
+        bad = [t for c, t in folded if c == "dispatch"]
+        ctx.check(not bad, "R11.10", fn, fn.node, f"{fn.short} (folded on a probe grid)", "PEM / DER export dispatch: " + "; ".join(bad[:2]),
+                  "None | 'PEM' -> Encoding.PEM; 'DER' -> Encoding.DER; else ValueError", construct="dump_pem_key encoding dispatch")
+    else:
+        _dump_pem_dispatch_shape(ctx, fn)
+    _named_exports(ctx)
+
+
+def _dump_pem_dispatch_shape(ctx, fn) -> None:
+    eng = ctx.eng
     cfg = cfg_of(fn)
     ep = "encoding"
     if ep not in fn.params:
@@ -589,6 +602,10 @@ def r11_10(ctx) -> None:
             if not ok:
                 why = "the function can complete without having selected an encoding"
     ctx.check(ok, "R11.10", fn, fn.node, fn.short, f"PEM / DER export dispatch: {why}", "None | 'PEM' -> Encoding.PEM; 'DER' -> Encoding.DER; else ValueError", construct="dump_pem_key encoding dispatch")
+
+
+def _named_exports(ctx) -> None:
+    eng = ctx.eng
     # the two named exports ask for their own encoding
     for meth, want in (("as_pem", ("PEM", None)), ("as_der", ("DER",))):
         for w in eng.prog.implementations(eng.prog.cls("rfc7517.models:BaseKey"), meth):
